@@ -719,8 +719,8 @@ theorem fact_number_functions :
     (eventsOf "jxpath.FormatNumber").contains "call:FormatFloat" = true ∧
     (eventsOf "jxpath.FormatNumber").contains "call:SetString" = true ∧
     (eventsOf "jxpath.FormatNumber").contains "call:Pow" = false ∧
-    (eventsOf "jxpath.makeNumberString").contains "call:DivMod" = true ∧
-    (eventsOf "jxpath.makeNumberString").contains "call:AppendFloat" = false ∧
+    (eventsOf "jxpath.FormatNumber").contains "call:DivMod" = true ∧
+    (eventsOf "jxpath.FormatNumber").contains "call:AppendFloat" = false ∧
     (eventsOf "Power").contains "call:Pow" = true ∧ (eventsOf "Power").contains "call:IsInf" = true ∧
     (eventsOf "Power").contains "call:IsNaN" = true ∧ (eventsOf "Power").contains "call:Errorf" = true ∧
     (eventsOf "Sqrt").contains "call:Errorf" = true ∧ (eventsOf "Sqrt").contains "call:Sqrt" = true ∧
